@@ -17,10 +17,16 @@
    What the runtime is asked is data of the term (supplied by the harness through the public API):
    the attribute list of the meta type in serialization order, RequiredCount(), attribute.Get(value),
    attribute.Default(value), attribute.HasValue()/Value(). *)
+From Coq Require Import Strings.String.
 From Coq Require Import ZArith NArith Bool List.
 From PcoreV Require Import Model.Base Model.Ser.
 Import ListNotations.
 Local Open Scope nat_scope.
+
+(* types/structtype.go:29-39: the meta type of the elements of a Struct type and its two attributes *)
+Definition t_struct_element : str := Eval compute in bytes_of "Pcore::StructElement".
+Definition s_key_type   : str := Eval compute in bytes_of "key_type".
+Definition s_value_type : str := Eval compute in bytes_of "value_type".
 
 Section Attrs.
 Context {payload : Type}.
@@ -88,7 +94,28 @@ Definition pobj_attrs (p : @pvalue payload) : list (@pvalue payload * @pvalue pa
 Definition isdef_sound (a : attr) (d : decl) : Prop :=
   a_isdef a = true -> d_default d = Some (erase (a_val a)).
 
+(* ---- reading the attributes (serializer.go:331-334, types/attribute.go:148-156 Get) ----
+   attribute.Get asks the container's reader (the Get(key) method of the value); a value whose Go type has no
+   reader for a declared attribute makes it panic with NO_ATTRIBUTE_READER.  reader = None: no reader. *)
+Definition reading : Type := (str * option (@rvalue payload) * bool)%type.   (* name, Get, Default *)
+
+Definition read_one (r : reading) : res attr :=
+  match snd (fst r) with
+  | Some v => Ok (mkattr (fst (fst r)) v (snd r))
+  | None => Err
+  end.
+Definition read_all (rs : list reading) : res (list attr) := sequence (map read_one rs).
+
+Definition readers_ok (rs : list reading) : bool :=
+  forallb (fun r => match snd (fst r) with Some _ => true | None => false end) rs.
+
+(* the px.ObjectType arm of valueToDataHash as a whole, under Convert *)
+Definition attr_route_serialize (to_s : str -> payload -> str) (o : opts) (c : caps)
+    (id : N) (ty : @rvalue payload) (req : nat) (rs : list reading) (disp : str) : res (list (@event payload)) :=
+  bind (read_all rs) (fun l => Ok (serialize to_s o c (VObjT id ty req l disp))).
+
 End Attrs.
 
 Arguments attr : clear implicits.
 Arguments decl : clear implicits.
+Arguments reading : clear implicits.
